@@ -434,6 +434,30 @@ def d6_transports(ctx, js):
     # dict transport: placeholders
     t1, t2 = js.text(js.func('_ol_from_dict')), js.text(js.func('_od_from_list_and_dict'))
     ok = "reps + '%d' % counter" in t1 and 'index = int(v[len(reps):])' in t2 and 'ol[index]' in t2
+    # the reader's pattern accepts every placeholder the writer can produce (reps + decimal counter of any length) and applies to the
+    # whole string: the constant patterns are extracted and tried on reps0, reps9, reps10, reps123
+    import re as _re
+    rd_f = js.func('_od_from_list_and_dict')
+    pats = []
+    for c in walk(rd_f, skip_nested_defs=False):
+        if isinstance(c, ast.Call) and isinstance(c.func, ast.Attribute) and c.func.attr in ('match', 'fullmatch', 'search', 'compile') and c.args:
+            a0 = c.args[0]
+            if isinstance(a0, ast.BinOp) and isinstance(a0.op, ast.Mod) and isinstance(a0.left, ast.Constant) and isinstance(a0.left.value, str):
+                pats.append((a0.left.value, c.func.attr, c))
+    methods = {c.func.attr for c in walk(rd_f, skip_nested_defs=False) if isinstance(c, ast.Call) and isinstance(c.func, ast.Attribute) and c.func.attr in ('match', 'fullmatch', 'search')}
+    badp = []
+    for tmpl, how, c in pats:
+        try:
+            rx = _re.compile(tmpl % 'DICTOBS')
+        except Exception:
+            continue
+        for cnt in (0, 9, 10, 123):
+            sstr = 'DICTOBS%d' % cnt
+            hit = (rx.fullmatch(sstr) if 'fullmatch' in methods else rx.match(sstr))
+            if not hit:
+                badp.append((tmpl, sstr))
+    ctx.check(rule, 'json#dict-placeholder-pattern', bool(pats) and not badp, 'every placeholder reps<k> (k of any length) is recognised by the reader',
+              'the reader pattern does not recognise %s: structures beyond the first ten stay in the dictionary as strings' % badp[:3], js.loc(rd_f))
     ctx.check(rule, 'json#dict-placeholders', ok, 'placeholder reps<k> written for the k-th structure and resolved to ol[k]', 'placeholder handling differs')
     t = js.text(js.func('load_json_dict'))
     ok = "indata['description']['OBSDICT']" in t and "indata['description']['description']" in t and "'OBSDICT': {}" in unparse(js.func('dump_dict_to_json'))
